@@ -81,11 +81,9 @@ impl Drop for Session {
     fn drop(&mut self) {
         self.cancel.store(true, Ordering::SeqCst);
         let dump = DUMP.with(|d| d.borrow_mut().take());
-        if std::thread::panicking() {
-            return;
-        }
         if let (Some(dump), Some(dir)) = (dump, dump_dir()) {
             let mut fields: Vec<String> = vec![format!("\"name\":{:?}", dump.name)];
+            fields.push(format!("\"panicked\":{}", std::thread::panicking()));
             for (k, v) in dump.fields {
                 fields.push(format!("{:?}:{}", k, v));
             }
